@@ -35,3 +35,91 @@ package wire
 //@     ensures result == wAddrEq(recv, arg0)
 //@ end
 //@ pred wireMapNonNil(m map[wallet.BackendID]Address) = forall b wallet.BackendID :: has(m, b) ==> m[b] != nil
+
+// ---------------------------------------------------------------------------
+// The relay (C18): what each operation does while it holds the relay's mutex. Predicates are unknown function values,
+// treated as pure and deterministic: apply(p, e) is the verdict of predicate p on envelope e.
+// ---------------------------------------------------------------------------
+
+//@ interface Consumer
+//@   method Put
+//@     requires recv != nil
+//@   method OnClose
+//@     requires recv != nil
+//@ end
+//@ func (*Relay).IsClosed
+//@   trusted
+//@   requires p != nil
+
+// anyMatches(subs, e, n): one of the first n subscriptions accepts e.
+//@ pred anyMatches(subs []subscription, e *Envelope, n int) = exists k int :: 0 <= k && k < n && apply(subs[k].predicate, e)
+
+// Cache.Put keeps the envelope if and only if one of the registered caching predicates accepts it, and appends it once.
+//@ func (*Cache).Put
+//@   requires c != nil && forall q *Predicate :: has(c.preds, q) ==> q != nil && *q != nil
+//@   modifies c.msgs, c.msgs[*]
+//@   ensures result <==> exists q *Predicate :: has(c.preds, q) && apply(*q, e)
+//@   ensures result ==> len(c.msgs) == old(len(c.msgs)) + 1 && c.msgs[old(len(c.msgs))] == e && forall k int :: 0 <= k && k < old(len(c.msgs)) ==> c.msgs[k] == old(c.msgs[k])
+//@   ensures !result ==> len(c.msgs) == old(len(c.msgs)) && c.msgs == old(c.msgs)
+//@   loop 1
+//@     invariant found <==> exists q *Predicate :: visited(q) && apply(*q, e)
+
+// Relay.Put (under the read lock): the envelope is handed to a consumer only if that consumer's predicate accepts it; it goes to
+// the cache only if no subscription accepts it, and to the default handler only if, in addition, the cache does not keep it.
+//@ func (*Relay).Put
+//@   requires p != nil && e != nil && p.defaultMsgHandler != nil && forall k int :: 0 <= k && k < len(p.consumers) ==> p.consumers[k].consumer != nil && p.consumers[k].predicate != nil
+//@   requires forall q *Predicate :: has(p.cache.preds, q) ==> q != nil && *q != nil
+//@   modifies p.cache.msgs, p.cache.msgs[*], ghost("held")
+//@   callsite wire.Consumer.Put : arg0 == e && exists k int :: 0 <= k && k < len(p.consumers) && recv == p.consumers[k].consumer && apply(p.consumers[k].predicate, e)
+//@   callsite (*Cache).Put : e == old(e) && !anyMatches(p.consumers, e, len(p.consumers))
+//@   callsite fn:defaultMsgHandler : arg0 == e && !anyMatches(p.consumers, e, len(p.consumers)) && !(exists q *Predicate :: has(p.cache.preds, q) && apply(*q, e))
+//@   ensures !held(&p.mutex)
+//@   loop 1
+//@     invariant found <==> anyMatches(p.consumers, e, $i)
+
+// Cache.Messages takes the cached envelopes accepted by p out of the cache: the result holds only accepted ones, the cache keeps
+// only rejected ones, nothing is invented and nothing is lost (every previously cached envelope ends up in exactly one of the
+// two lists, counted by length), in place.
+//@ func (*Cache).Messages
+//@   requires c != nil && p != nil
+//@   modifies c.msgs, c.msgs[*]
+//@   ensures len(result) + len(c.msgs) == old(len(c.msgs))
+//@   ensures forall i int :: 0 <= i && i < len(result) ==> apply(p, result[i]) && exists k int :: 0 <= k && k < old(len(c.msgs)) && result[i] == old(c.msgs[k])
+//@   ensures forall i int :: 0 <= i && i < len(c.msgs) ==> !apply(p, c.msgs[i]) && exists k int :: 0 <= k && k < old(len(c.msgs)) && c.msgs[i] == old(c.msgs[k])
+//@   loop 1
+//@     modifies fresh, c.msgs[*]
+//@     invariant arr(msgs) == old(arr(c.msgs)) && off(msgs) == old(off(c.msgs)) && cap(msgs) == old(cap(c.msgs)) && fresh(arr(matches)) && arr(matches) != arr(msgs)
+//@     invariant len(msgs) + len(matches) == $i && len(msgs) <= $i
+//@     invariant forall k int :: $i <= k && k < old(len(c.msgs)) ==> old(c.msgs)[k] == old(c.msgs[k])
+//@     invariant forall j int :: 0 <= j && j < len(matches) ==> apply(p, matches[j]) && exists k int :: 0 <= k && k < $i && matches[j] == old(c.msgs[k])
+//@     invariant forall j int :: 0 <= j && j < len(msgs) ==> !apply(p, msgs[j]) && exists k int :: 0 <= k && k < $i && msgs[j] == old(c.msgs[k])
+
+// Relay.delete removes exactly the (first) subscription of the closed consumer; all other subscriptions stay (their order may
+// change: swap with the last one). Deleting a consumer that is not subscribed is a documented panic.
+//@ pred subOf(subs []subscription, c Consumer, i int) = 0 <= i && i < len(subs) && subs[i].consumer == c && forall k int :: 0 <= k && k < i ==> subs[k].consumer != c
+//@ func (*Relay).delete
+//@   requires p != nil && c != nil
+//@   modifies p.consumers, p.consumers[*], ghost("held")
+//@   panics !(exists k int :: 0 <= k && k < len(p.consumers) && p.consumers[k].consumer == c)
+//@   ensures !held(&p.mutex)
+//@   ensures forall i int :: old(subOf(p.consumers, c, i)) && len(p.consumers) != old(len(p.consumers)) ==> len(p.consumers) == old(len(p.consumers)) - 1 &&
+//@           (forall k int :: 0 <= k && k < len(p.consumers) && k != i ==> p.consumers[k].consumer == old(p.consumers[k].consumer) && p.consumers[k].predicate == old(p.consumers[k].predicate)) &&
+//@           (i < len(p.consumers) ==> p.consumers[i].consumer == old(p.consumers[len(p.consumers) - 1].consumer) && p.consumers[i].predicate == old(p.consumers[len(p.consumers) - 1].predicate))
+//@   loop 1
+//@     invariant forall k int :: 0 <= k && k < $i ==> p.consumers[k].consumer != c
+
+// Relay.Subscribe (under the write lock): the new subscription is appended with exactly the given consumer and predicate, the
+// cached envelopes accepted by the predicate are taken out of the cache (Cache.Messages) and each of them is handed to the new
+// consumer, once, by the delivery goroutine. A second subscription of the same consumer is a documented panic.
+//@ func (*Relay).Subscribe
+//@   requires p != nil && c != nil && predicate != nil
+//@   modifies p.consumers, p.consumers[*], p.cache.msgs, p.cache.msgs[*], ghost("held")
+//@   panics exists k int :: 0 <= k && k < len(p.consumers) && p.consumers[k].consumer == c
+//@   callsite (*Cache).Messages : p == predicate
+//@   callsite wire.Consumer.Put : recv == c && apply(predicate, arg0)
+//@   ensures !held(&p.mutex)
+//@   ensures result == nil ==> len(p.consumers) == old(len(p.consumers)) + 1 && p.consumers[old(len(p.consumers))].consumer == c && p.consumers[old(len(p.consumers))].predicate == predicate &&
+//@           forall k int :: 0 <= k && k < old(len(p.consumers)) ==> p.consumers[k].consumer == old(p.consumers[k].consumer) && p.consumers[k].predicate == old(p.consumers[k].predicate)
+//@   ensures result != nil ==> len(p.consumers) == old(len(p.consumers))
+//@   loop 1
+//@     invariant forall k int :: 0 <= k && k < $i ==> p.consumers[k].consumer != c
